@@ -232,6 +232,9 @@ func ampFamilies(tier string) []*core.Family {
 						n, len(e), ampCPU, ampMem, detail, o.brief(), o.usedMem, dt, src),
 				})
 			}
+			if os.Getenv("C05_DEBUG") != "" {
+				fmt.Fprintf(os.Stderr, "DBG %-22s N=%-14d E=%-3d %-7s cpu=%-6d mem=%-7d res=%s err=%s %.3fs\n", tpl.name, n, len(e), o.status, o.used, o.usedMem, strings.Join(o.results, ","), o.errv, dt)
+			}
 			switch o.status {
 			case "killed":
 				if o.used >= ampCPU || o.usedMem >= ampMem {
